@@ -22,7 +22,7 @@ type Case struct {
 
 func setup() {
 	c := ev.C()
-	c.Rule = "interleavings (harness-chosen, message granularity) of connect / negotiate / announce / operate / disconnect for 2-3 SINGLE_PRIMARY sessions; announced ids and the id stamped on each operation are drawn independently from a 128-bit lattice (equal ids, ids differing only in the high or only in the low word, stale, future, none); operations are next-hop ADD/REPLACE/DELETE with distinctive payloads so acceptance is visible. Rapid scripts of <=25 steps plus every script of <=4 (quick) / <=5 (thorough) steps over a 2-session alphabet with ids {1,2}^2. Plus in-flight schedules: the primary's request is stopped (public post-change hook) inside one of its operations, 1-5 announcements by up to 3 other sessions are delivered meanwhile (each followed until answered or until its handler is parked on a lock), the operation is released; at quiescence the election id and primary must be those the announcements produce in their order and exactly the primary's correctly stamped probe operation must be programmed. Oracle: an operation is accepted iff its session is the model's primary and stamp == session's last announced id == highest id; otherwise it must be answered FAILED (or end the RPC) and Get, held set, counters, election id and primary (hooks) must be unchanged; accepted operations follow the RIB model. Non-trivial = >=2 sessions have announced and >=1 operation was rejected and >=1 accepted; distinct by FNV-64 of the case JSON."
+	c.Rule = "interleavings (harness-chosen, message granularity) of connect / negotiate / announce / operate / disconnect for 2-3 SINGLE_PRIMARY sessions; announced ids and the id stamped on each operation are drawn independently from a 128-bit lattice (equal ids, ids differing only in the high or only in the low word, stale, future, none); operations are next-hop ADD/REPLACE/DELETE with distinctive payloads so acceptance is visible. Rapid scripts of <=25 steps plus every script of <=4 (quick) / <=5 (thorough) steps over a 2-session alphabet with ids {1,2}^2. Plus in-flight schedules: the primary's request is stopped (public post-change hook) inside one of its operations, 1-5 announcements by up to 3 other sessions are delivered meanwhile (each followed until answered or until its handler is parked on a lock), the operation is released; at quiescence the election id and primary must be those the announcements produce in their order and exactly the primary's correctly stamped probe operation must be programmed. Oracle: an operation is accepted iff its session is the model's primary and stamp == session's last announced id == highest id; otherwise it must be answered FAILED (or end the RPC) and Get, held set, counters, election id and primary (hooks) must be unchanged; accepted operations follow the RIB model. Non-trivial = >=2 sessions have announced and >=1 operation was rejected and >=1 accepted; distinct by FNV-64 of the case JSON. Later additions: clock steps/freezes before drawn steps; servers started with an injected election id (NewFake+InjectElectionID); in-flight schedules in which clients of idle sessions go away."
 	c.Assumptions = []string{"operations never become held (next-hops only), so hand-over with held operations is left to C06"}
 }
 
